@@ -164,10 +164,12 @@ HARNESSES = [
             outside='ties between floating-point vote counts; GPU path',
             expect_reach=['mapped'], selftest=10, split=48),
     Harness('backfill_inferred_levels', h_backfill, setup=LL.setup,
-            cases=[{'sizes': s} for s in ([2, 3], [1, 2, 3], [2, 2, 2])],
+            cases=[{'sizes': s} for s in ([2, 3], [1, 2, 3], [2, 2, 2])]
+            + [{'sizes': [2, 2, 2], 'alias': True}],
             thorough_cases=[{'sizes': s} for s in
                             ([2, 3], [2, 2, 3], [1, 2, 3], [2, 3, 3],
-                             [2, 3, 4], [2, 2, 2, 3])],
+                             [2, 3, 4], [2, 2, 2, 3])]
+            + [{'sizes': [2, 2, 3], 'alias': True}],
             funcs=FUNCS + ['TaxonomyTree.flatten', 'TaxonomyTree.drop_level',
                            'TaxonomyTree.backfill_assignments'],
             stubs=STUBS, assumptions=ASSUME, classify=classify,
